@@ -112,6 +112,10 @@ RLinesDir == {[k |-> "origin", name |-> <<"abs", o>>] : o \in UOrigins}
              \cup {[k |-> "origin", name |-> <<"rel", <<"a">>>>]}
              \cup {[k |-> "ttl", v |-> 60], [k |-> "blank", form |-> "comment"], [k |-> "bad", what |-> "qempty"]}
              \cup {G1, G1b, G2}
+             \* ignored (out-of-zone) records in the multi-line layouts
+             \cup {[RRLine(<<"abs", <<"x", "other">>>>, t, rd[1], rd[2], rd[3]) EXCEPT !.lay = l] :
+                     l \in {"paren", "parenc", "paren0"}, t \in {<<"none">>, <<"t", 5>>},
+                     rd \in {<<"A", <<>>, <<10, 0, 0, 1>>>>, <<"MX", << <<"rel", <<"mail">>>> >>, <<10>>>>}}
 RLinesFull == RLinesRR \cup RLinesDir
 RLinesMid == {RRLine(o, t, rd[1], rd[2], rd[3]) :
                 o \in {<<"at">>, <<"rel", <<"a">>>>, <<"blank">>, <<"abs", <<"x", "other">>>>}, t \in {<<"none">>, <<"t", 5>>},
@@ -141,9 +145,11 @@ PFull == {FullForms}
 PInherit == {[cls |-> {"IN"}, ord |-> {"tc"}, ttl |-> {"t"}, tg |-> {FALSE}, gen |-> {FALSE}, lay |-> {"single"}, relorigin |-> TRUE]}
 \* one spelling of class / order / type / layout per behaviour (keeps -simulate's branching small)
 PSim == {[cls |-> {c}, ord |-> {o}, ttl |-> {"t", "u"}, tg |-> {g}, gen |-> {x}, lay |-> {y}, relorigin |-> TRUE] :
-           c \in {"none", "IN", "CLASS1"}, o \in {"tc", "ct"}, g \in Bool, x \in Bool, y \in {"single", "paren", "parenc"}}
+           c \in {"none", "IN", "CLASS1"}, o \in {"tc", "ct"}, g \in Bool, x \in Bool, y \in {"single", "paren", "parenc", "paren0"}}
 GZCur == Curated
 GZEmpties == {Z1, Z2, Z3, Z6, Z7}
+GZW1Thorough == {Z2, Z3, Z6}
+GZSinglesT == {ZoneOf({r}) : r \in {r \in AllRecs : r[3] = 300}}
 GZNone == {}
 GZSingles == {ZoneOf({r}) : r \in {r \in AllRecs : r[3] = 300 /\ r[1] \in {<<>>, <<"b", "a">>}}}
 GZSinglesAll == Singles
